@@ -44,6 +44,10 @@ PFAMILY = [
     ["bin", "*", ["bin", "*", ["param", "p"], ["var", "x"]], ["var", "y"]],
     ["bin", "-", ["bin", "*", ["var", "x"], ["var", "x"]], ["bin", "*", ["param", "q"], ["var", "x"]]],
     ["un", "exp", ["bin", "*", ["param", "p"], ["var", "x"]]],
+    # functions applied directly to a name-equal leaf (a cache keyed by the operand would hand back another model's node)
+    ["bin", "*", ["un", "asinh", ["param", "p"]], ["var", "x"]],
+    ["bin", "+", ["un", "atan", ["param", "p"]], ["bin", "*", ["un", "log2", ["bin", "+", ["param", "q"], ["const", "pyfloat", 4.0]]], ["var", "y"]]],
+    ["bin", "*", ["un", "log10", ["bin", "+", ["param", "p"], ["const", "pyfloat", 3.0]]], ["un", "asinh", ["var", "x"]]],
 ]
 
 
